@@ -432,7 +432,7 @@ type ScriptCfg struct {
 	Nexts   []int
 }
 
-var statusGen = rapid.SampledFrom([]int{200, 201, 204, 301, 400, 404, 418, 500, 503, 299, 100, 599})
+var statusGen = rapid.SampledFrom([]int{200, 201, 204, 301, 400, 404, 418, 500, 503, 299, 100, 599, 799})
 
 func genMisc(t *rapid.T, cfg ScriptCfg) (op Op, ok bool) {
 	var kinds []OpKind
